@@ -111,3 +111,47 @@ func VerifDedup() {
 		verifReach("nothing to de-duplicate")
 	}
 }
+
+// ---- C13: the answers of several root steps to one response key, under every interleaving ----
+
+type vFixedQueryer struct {
+	url string
+	res map[string]interface{}
+}
+
+func (q *vFixedQueryer) URL() string { return q.url }
+func (q *vFixedQueryer) Subscribe(*requests.Request, <-chan struct{}, chan *requests.Response) error {
+	return nil
+}
+func (q *vFixedQueryer) Query(in []*requests.Request) ([]map[string]interface{}, error) {
+	out := make([]map[string]interface{}, len(in))
+	for i := range in {
+		out[i] = q.res
+	}
+	return out, nil
+}
+
+// VerifRootMergeOrder: a node lookup with fragments on types of two (three) services is sent to each of
+// them as a root step; the service that owns the entity answers an object, the others answer node: null.
+// Whatever order the answers arrive in, the client gets the object.
+func VerifRootMergeOrder() {
+	n := 2 + verifChoice("services", verifParam("extra", 1))
+	owner := verifChoice("owner", n)
+	plan := &planner.QueryPlan{}
+	qs := map[string]queryer.Queryer{}
+	for i := 0; i < n; i++ {
+		url := "u" + verifItoa(i)
+		plan.RootSteps = append(plan.RootSteps, &planner.QueryPlanStep{URL: url, ParentType: "Query", QueryString: `{ node(id: "x") { ... on T` + verifItoa(i) + ` { f } } }`})
+		var node interface{}
+		if i == owner {
+			node = map[string]interface{}{"f": "value"}
+		}
+		qs[url] = &vFixedQueryer{url: url, res: map[string]interface{}{"node": node}}
+	}
+	var ex ParallelExecutor
+	res, err := ex.Execute(&ExecutionContext{QueryPlan: plan, Request: &requests.Request{}, Queryers: qs})
+	verifAssert(err == nil, "healthy services yield no error")
+	nodeRes, _ := res["node"].(map[string]interface{})
+	verifAssert(nodeRes != nil && nodeRes["f"] == "value", "the answer of the service that knows the entity reaches the client, whichever answer arrives last")
+	verifReach("root answers merged")
+}
